@@ -33,9 +33,6 @@ ASSUMPTIONS = [
     "absolute-unit defaults (min_branch_length=1e-8, eps=1e-8) are scaled explicitly, as the statement says",
 ]
 
-F5 = "Use fewer rescaling intervals"
-
-
 def scale_class(c):
     if c in (3.7, 0.37) or abs(c - 3.141592653589793) < 1e-12:
         return "nondyadic"
@@ -43,8 +40,6 @@ def scale_class(c):
 
 
 def classify_raise(r):
-    if r["exc"] == "AssertionError" and F5 in r["msg"]:
-        return "f5"
     return f"{r['exc']}"
 
 
@@ -115,12 +110,9 @@ def one_case(ctx, rng, res, stats, batch, checks, scales_per_case, corr=True, id
             if (base is None) != (not r1["ok"]):
                 who = r1 if base is not None else r0
                 cl = classify_raise(who)
-                if cl == "f5":
-                    stats["f5_flip"] += 1          # finding F5's assertion sits on a rounding edge: data, not C06
-                else:
-                    res.violations.append(Violation(
-                        f"raises-at-one-scale:{method}:{cl}",
-                        f"{method}: date() {'raised' if base is not None else 'returned'} at c={c!r} but not at c=1: "
+                res.violations.append(Violation(
+                    f"raises-at-one-scale:{method}:{cl}",
+                    f"{method}: date() {'raised' if base is not None else 'returned'} at c={c!r} but not at c=1: "
                         f"{who['exc']}: {who['msg'][:120]}", replay))
             continue
         out1 = r1["out"][0] if discrete else r1["out"]
@@ -201,7 +193,7 @@ def rescale_piece(ctx, res, stats, batch, checks, n):
         t = ts.nodes_time * rng.uniform(0.6, 1.8, size=ts.num_nodes)
         samples = list(ts.samples())
         t[samples] = ts.nodes_time[samples]
-        k = int(rng.choice([1, 2, 3, 5, 10]))
+        k = int(rng.choice([1, 2, 3, 5, 10, 50, 1000]))
         iters = int(rng.choice([1, 3, 5]))
         sb = bool(rng.random() < 0.5)
         c = float(rng.choice(sc.C06_SCALES))
@@ -256,7 +248,7 @@ def corpus(ctx, res, stats):
 
 
 def new_stats():
-    return dict(methods={}, options={}, raised={}, scales={}, max_relerr={}, f5_flip=0, hyp_inrange=0,
+    return dict(methods={}, options={}, raised={}, scales={}, max_relerr={}, hyp_inrange=0,
                 rescale_cases=0, rescale_rejected=0, rescale_reject_flip=0, changepoint_flip=0, driver_cases={})
 
 
@@ -283,6 +275,7 @@ def run(ctx):
         one_case(ctx, rng, res, stats, batch, checks, per, corr=(i % 2 == 0), idx=i)
     constrain_piece(ctx, res, stats, batch, checks, ctx.n(60, 1500))
     rescale_piece(ctx, res, stats, batch, checks, ctx.n(12, 200))
+    sc.ep_piece(ctx, res, stats, batch, checks, ctx.n(8, 120), time_scales=(1.0, 1e-6, 1e6, 3.7))
     finish_batch(res, stats, batch, checks)
     stats["hypotheses"] = dict(c_positive="always (scale factors of the statement)",
                                InRange=f"{stats['hyp_inrange']} of {ctx.n(60, 1500)} constraint cases")
